@@ -147,7 +147,7 @@ Lemma out_ext_link i x d b j t f :
     extend (term_kmer K (n_seq D (fst x)) d) b d =
       osq s (extend (term_kmer K (n_seq D nv) (eside s d)) (ob s b) (eside s d)) /\
     wf_dna (extend (term_kmer K (n_seq D nv) (eside s d)) (ob s b) (eside s d)) /\
-    (t = sg \/ (stranded = false /\ length (n_seq D (fst x')) = K /\
+    (t = sg \/ (stranded = false /\ pal_single (fst x') = true /\
                 is_palindrome (extend (term_kmer K (n_seq D (fst x)) d) b d) = true)).
 Proof.
   intros Hi Hb Hlk. assert (Hx : In x r) by (eapply nth_error_In; eauto).
@@ -217,7 +217,7 @@ Proof.
                    exists xx, nth_error r jj = Some xx /\ term_kmer K (n_seq D (fst xx)) dd = k).
   { intros jj dd k [Hlt E]. rewrite map_length in Hlt. unfold EdgeSpec.node_seq in E. rewrite nth_error_map in E.
     destruct (nth_error r jj) as [xx|] eqn:Ejj; [|apply nth_error_None in Ejj; lia]. exists xx. auto. }
-  assert (Hres : j = j' /\ (t = sg \/ (stranded = false /\ length (n_seq D (fst x')) = K /\ is_palindrome (osq s kk') = true))).
+  assert (Hres : j = j' /\ (t = sg \/ (stranded = false /\ pal_single (fst x') = true /\ is_palindrome (osq s kk') = true))).
   { apply find_link_some in Hlk.
     destruct Hlk as [(Hf & Ht & He)|(Hf & Hst & Ht & He & Hno)]; destruct Hgoal as [[Hsg Hk]|(Hst' & Hsg & Hk)].
     - (* direct hit, and j' has the same facing end *)
@@ -231,10 +231,13 @@ Proof.
       assert (Ec : term_kmer K (n_seq D (fst xx)) (dflip d) = rc (term_kmer K (n_seq D (fst x')) d)).
       { rewrite Exx, Hk. now rewrite (ListFacts.rc_involutive _ Wq). }
       destruct (out_end_cross D reduce join K stranded g1 S r W Hnd Hr HndL HndR Hcross j' j x' xx d Hst' Hj' Hxx Ec) as [Ej Hl].
-      split; [exact Ej|]. right. split; [exact Hst'|]. split; [exact Hl|].
       subst j. rewrite Hj' in Hxx. injection Hxx as <-.
-      apply palindrome_of_eq. rewrite <- Hk, <- Exx.
-      now rewrite (GraphQueryProofs.term_kmer_single K _ (dflip d) Hl), (GraphQueryProofs.term_kmer_single K _ d Hl).
+      assert (Pq : is_palindrome (osq s kk') = true).
+      { apply palindrome_of_eq. rewrite <- Hk, <- Exx.
+        now rewrite (GraphQueryProofs.term_kmer_single K _ (dflip d) Hl), (GraphQueryProofs.term_kmer_single K _ d Hl). }
+      split; [reflexivity|]. right. split; [exact Hst'|]. split; [|exact Pq].
+      unfold RecompCheck.pal_single. rewrite Hst', Hl, Nat.eqb_refl. cbn [negb andb].
+      rewrite <- (RecompressProofs.term_kmer_single K _ (dflip d) Hl), Exx. exact Pq.
     - exfalso. apply (Hno j'). rewrite <- Hsg. apply (Hend _ _ _ x' Hj'). exact Hk.
     - destruct (Hend' _ _ _ He) as (xx & Hxx & Exx). subst t sg.
       assert (j = j').
